@@ -30,6 +30,11 @@ def plain(x, limit=12):
 def mutate(x):
     try:
         if isinstance(x, list):
+            for row in x:
+                if isinstance(row, list):       # nested results (matrices): the rows too
+                    row.append("junk")
+                    if row:
+                        row[0] = "junk"
             x.append("junk")
             if x:
                 x[0] = "junk"
@@ -53,14 +58,17 @@ def run(tier, seed):
                 ("Stream.copy", lambda a: Stream(a).copy(), [x, x[::-1]]), ("Stream.append", lambda a: Stream(a).append([1, 2]), [x, x[::-1]])],
         "C01": [("Stream+scalar", lambda a: Stream(a) + F(1, 2), [x, x[::-1]]), ("Stream+0.5", lambda a: Stream(a) + 0.5, [x, x[::-1]]), ("scalar*Stream", lambda a: 2 * Stream(a), [x, x[::-1]]),
                 ("sin", lambda a: al.sin(list(a)), [xf, xf[::-1]]), ("dB20", lambda a: al.dB20(tuple(a)), [xf, xf[::-1]])],
-        "C04": [("filter", lambda a: filt(list(a), zero=0), [x, x[::-1]]), ("filter+memory", lambda a: filt(list(a), memory=[F(7)], zero=0), [x, x[::-1]])],
+        "C04": [("filter", lambda a: filt(list(a), zero=0), [x, x[::-1]]), ("filter+memory", lambda a: filt(list(a), memory=[F(7)], zero=0), [x, x[::-1]]),
+                ("all-zero filter, zero value from the data", lambda a: al.ZFilter(0)(list(a[:4]), zero=int(a[0])), [x, x[::-1]]),
+                ("feedback-only filter with memory", lambda a: al.ZFilter([], [1, -1])(list(a[:4]), memory=[int(a[0])], zero=0), [x, x[::-1]])],
         "C05": [("f+g", lambda a: (filt + (1 + z ** -1))(list(a), zero=0), [x, x[::-1]]), ("f*g", lambda a: (filt * (2 - z ** -2))(list(a), zero=0), [x, x[::-1]]),
                 ("CascadeFilter", lambda a: al.CascadeFilter(filt, 1 + z ** -1)(list(a), zero=0), [x, x[::-1]]), ("ParallelFilter", lambda a: al.ParallelFilter(filt, 1 + z ** -1)(list(a), zero=0), [x, x[::-1]])],
         "C06": [("stream-coefficient", lambda a: (Stream([F(1), F(2), F(3), F(4), F(5), F(6), F(7), F(8)]) * z ** -1 + 1)(list(a), zero=0), [x, x[::-1]])],
         "C07": [("Poly ops", lambda a: (al.Poly(list(a[:3])) * al.Poly(list(a[2:5])) + al.Poly(list(a[:2])) ** 2), [x, x[::-1]]), ("Poly.diff", lambda a: al.Poly(list(a[:4])).diff(), [x, x[::-1]]),
                 ("lagrange.poly", lambda a: al.lagrange.poly(list(zip(range(4), a[:4]))), [x, x[::-1]])],
         "C09": [("overlap_add.list", lambda a: al.overlap_add.list(iter([list(a[:4]), list(a[4:8])]), size=4, hop=2, wnd=[F(1), F(2), F(2), F(1)], normalize=True), [x, x[::-1]])],
-        "C10": [("acorr", lambda a: al.acorr(list(a), 3), [x, x[::-1]]), ("lag_matrix", lambda a: al.lag_matrix(list(a), 2), [x, x[::-1]]), ("lpc.kautocor", lambda a: al.lpc.kautocor(list(a), 2), [x, x[::-1]]),
+        "C10": [("acorr", lambda a: al.acorr(list(a), 3), [x, x[::-1]]), ("lag_matrix", lambda a: al.lag_matrix(list(a), 2), [x, x[::-1]]), ("toeplitz", lambda a: al.lazy_lpc.toeplitz(list(a[:4])), [x, x[::-1]]),
+                ("toeplitz of equal floats", lambda a: al.lazy_lpc.toeplitz([float(v) for v in a[:3]]), [x, x[::-1]]), ("lpc.kautocor", lambda a: al.lpc.kautocor(list(a), 2), [x, x[::-1]]),
                 ("levinson_durbin", lambda a: al.levinson_durbin(al.acorr(list(a), 3)), [x, x[::-1]])],
         "C11": [("parcor", lambda a: list(al.parcor(al.ZFilter([1, F(1, 2), a[0] / 16]))), [x, x[::-1]]), ("parcor_stable", lambda a: al.parcor_stable(al.ZFilter([1], [2, a[0] / 8, F(1, 4)])), [x, x[::-1]])],
         "C12": [("freq_response", lambda a: filt.freq_response([0.1 * float(v) for v in a]), [x, x[::-1]]), ("dft", lambda a: al.dft(list(map(float, a)), [0.0, 1.0, 2.5]), [x, x[::-1]])],
